@@ -436,8 +436,10 @@ def _plan_genfile(st, rc, tier):
     plan = {"route": route, "K": K, "np_seed": seed, "strategies": [rc.choice(D.STRATEGIES) for _ in range(K)],
             "compress": rc.random() < 0.3}
     if route == "generator_save":
-        name = rc.choice(E.only_filter(GENSAVE_ENVS))
+        name = rc.choice(E.only_filter(GENSAVE_ENVS + ["mtvrp"]))  # MTVRP has a writer and a loader of its own
         cfg = E.sample_cfg(name, rc, tier)
+        if name == "mtvrp" and rc.random() < 0.5:
+            cfg["gen"]["scale_demand"] = False  # integer demands against the original capacity
         if name == "mcp":
             cfg["gen"]["min_size"] = cfg["gen"]["max_size"]  # one membership width per file
         env = E.make_env(cfg)
